@@ -56,7 +56,7 @@ type mdsEnv struct {
 	accAddr  map[string]sdk.AccAddress
 	accSym   map[string]string    // bech32 -> symbol
 	uid      map[string]uuid.UUID // symbol -> uuid
-	uidSym   map[string]string    // uuid string -> symbol
+	uidSym   map[string]string    // kind ":" uuid string -> symbol (uuids of different kinds may coincide)
 	recSym   map[string]string    // hex record address -> "s1/n1"
 	rspecSym map[string]string    // hex record spec address -> "c1/n1"
 	signers  []string
@@ -67,8 +67,21 @@ var (
 	mdsE    *mdsEnv
 )
 
+// mdsUUID: the uuid of the i-th symbol of a kind.  The LAST symbol of each kind has a boundary
+// uuid: all-zero (uuid.Nil; a valid uuid for every address type) for the third session and the
+// third contract specification, all-0xff (the prefix whose end bound needs a carry) for the third
+// scope and the second scope specification.
 func mdsUUID(kind string, i int) uuid.UUID {
 	var u uuid.UUID
+	switch {
+	case (kind == "session" || kind == "cspec") && i == 3:
+		return u
+	case (kind == "scope" && i == 3) || (kind == "sspec" && i == 2):
+		for j := range u {
+			u[j] = 0xff
+		}
+		return u
+	}
 	copy(u[:], []byte(fmt.Sprintf("vf-%-8s-%04d", kind, i)))
 	return u
 }
@@ -104,7 +117,7 @@ func mdsSetup(t *testing.T) *mdsEnv {
 			for i, s := range syms {
 				u := mdsUUID(kind, i+1)
 				e.uid[s] = u
-				e.uidSym[u.String()] = s
+				e.uidSym[kind+":"+u.String()] = s
 			}
 		}
 		reg("scope", mdsScopes)
@@ -216,11 +229,11 @@ func (e *mdsEnv) regSession(sym string) {
 	}
 	var u uuid.UUID
 	copy(u[:], []byte(fmt.Sprintf("vf-bulk-%-8s", sym)))
-	if prev, ok := e.uidSym[u.String()]; ok && prev != sym {
+	if prev, ok := e.uidSym["session:"+u.String()]; ok && prev != sym {
 		panic("session uuid collision " + prev + " " + sym)
 	}
 	e.uid[sym] = u
-	e.uidSym[u.String()] = sym
+	e.uidSym["session:"+u.String()] = sym
 }
 
 // exec executes one line: one op, or a bulk line that abbreviates a sequence of messages, each
@@ -422,7 +435,16 @@ func (e *mdsEnv) symU(ma mdtypes.MetadataAddress) string {
 	if err != nil {
 		return "?" + hex.EncodeToString(ma)
 	}
-	if s, ok := e.uidSym[u.String()]; ok {
+	kind := "scope"
+	if len(ma) > 0 {
+		switch ma[0] {
+		case mdtypes.ContractSpecificationKeyPrefix[0], mdtypes.RecordSpecificationKeyPrefix[0]:
+			kind = "cspec"
+		case mdtypes.ScopeSpecificationKeyPrefix[0]:
+			kind = "sspec"
+		}
+	}
+	if s, ok := e.uidSym[kind+":"+u.String()]; ok {
 		return s
 	}
 	return "?" + u.String()
@@ -433,7 +455,7 @@ func (e *mdsEnv) symSession(ma mdtypes.MetadataAddress) string {
 	if err != nil {
 		return "?" + hex.EncodeToString(ma)
 	}
-	s2, ok := e.uidSym[u2.String()]
+	s2, ok := e.uidSym["session:"+u2.String()]
 	if !ok {
 		s2 = "?" + u2.String()
 	}
@@ -558,7 +580,7 @@ func (e *mdsEnv) dump() string {
 			vo = append(vo, "?err:"+n)
 		} else {
 			for _, us := range resp.ScopeUuids {
-				s, ok := e.uidSym[us]
+				s, ok := e.uidSym["scope:"+us]
 				if !ok {
 					s = "?" + us
 				}
